@@ -20,6 +20,8 @@
  *        jpeg_mem_dest: outbuffer NULL vs application-supplied initial buffers (single = 0: sweep of size classes
  *        1..64, around the header size, inside the entropy data, len-1, len, len+1; else that one size)
  *        -> "M <n> ok len=.. hdr=.. hash=.." | "M <i> bad size=.. len=got/ref firstdiff=.. hdr=.."
+ *   encs <w> <h> <nc> <sub> <q> <restart> <imgseed> <maxsize> <reps> <seed>   suspending destination (as enc) for EVERY size 2..maxsize, 1
+ *        -> "CS <n> ok" | "CS <i> bad size=.. seed=.. res=.."   (replay: enc ... <size> <seed>)
  *   dst <mode> <w> <h> <nc> <sub> <q> <restart> <imgseed> <maxsize> <single>
  *        custom never-refusing destination of EVERY buffer size 1..maxsize plus the sizes that leave 0/1/2 free bytes at an
  *        RSTn marker (mode: 0 baseline 2 progressive 4 lossless 1/3 12-bit, +10 arithmetic); guard bytes behind the buffer
@@ -357,6 +359,12 @@ static void make_image(unsigned char *img16, int w, int h, int nc, int prec, uin
 
 static void set_sampling(j_compress_ptr c, int nc, int sub)
 {
+  if (nc == 1) {
+    /* one component: several MCU rows per iMCU row when v_samp_factor > 1 (sub: 0 = 1x1, 1 = 1x2, 2 = 1x4, 3 = 2x2, 4 = 2x4) */
+    static const int gh[5] = { 1, 1, 1, 2, 2 }, gv[5] = { 1, 2, 4, 2, 4 };
+    c->comp_info[0].h_samp_factor = gh[sub % 5]; c->comp_info[0].v_samp_factor = gv[sub % 5];
+    return;
+  }
   if (nc < 3) return;
   /* sub: 0 = 1x1, 1 = 2x1, 2 = 2x2, 3 = 1x2, 4 = 4x1 */
   static const int hs[5] = { 1, 2, 2, 1, 4 }, vs[5] = { 1, 1, 2, 2, 1 };
@@ -645,8 +653,10 @@ static void sd_flush(susp_dst *d)
   d->pub.next_output_byte = d->buf; d->pub.free_in_buffer = d->n;
 }
 
-static void encode_case(int w, int h, int nc, int sub, int quality, int restart, uint64_t imgseed, size_t bufsize, uint64_t seed)
+/* returns 1 = identical, 0 = bytes differ, -1 = library error; quiet = no output line */
+static int encode_case(int w, int h, int nc, int sub, int quality, int restart, uint64_t imgseed, size_t bufsize, uint64_t seed, int quiet)
 {
+  int result = -1;
   unsigned char *img = (unsigned char *)malloc((size_t)w * h * nc * 2 + 16);
   unsigned char *tmp = (unsigned char *)malloc((size_t)w * nc * 8 + 16);
   unsigned char *ref = NULL; unsigned long reflen = 0; susp_dst sd; int pass;
@@ -655,7 +665,7 @@ static void encode_case(int w, int h, int nc, int sub, int quality, int restart,
   for (pass = 0; pass < 2; pass++) {
     struct jpeg_compress_struct c; struct my_err e; long guard = 0;
     c.err = jpeg_std_error(&e.pub); e.pub.error_exit = my_exit; e.pub.emit_message = my_emit; e.pub.output_message = my_output;
-    if (setjmp(e.jb)) { printf("C err %d pass %d\n", e.pub.msg_code, pass); jpeg_destroy_compress(&c); goto out; }
+    if (setjmp(e.jb)) { if (!quiet) printf("C err %d pass %d\n", e.pub.msg_code, pass); jpeg_destroy_compress(&c); goto out; }
     jpeg_create_compress(&c);
     if (pass == 0) jpeg_mem_dest(&c, &ref, &reflen);
     else {
@@ -679,22 +689,25 @@ static void encode_case(int w, int h, int nc, int sub, int quality, int restart,
         /* documented protocol: after a suspension make room (write data up to next_output_byte, reset);
          * the application may also do so voluntarily between calls */
         if (sd.refused || rb(5) == 0) sd_flush(&sd);
-        if (++guard > 50000000L) { printf("C err -77 livelock\n"); jpeg_destroy_compress(&c); goto out; }
+        if (++guard > 50000000L) { if (!quiet) printf("C err -77 livelock\n"); jpeg_destroy_compress(&c); goto out; }
       }
       (void)got;
     }
     jpeg_finish_compress(&c);
     jpeg_destroy_compress(&c);
   }
-  if (reflen == sd.len && memcmp(ref, sd.sink, reflen) == 0)
-    printf("C ok %lu %016llx refusals=%ld accepts=%ld\n", reflen, (unsigned long long)fnv(FNV0, ref, reflen), sd.refusals, sd.accepts);
-  else {
+  if (reflen == sd.len && memcmp(ref, sd.sink, reflen) == 0) {
+    result = 1;
+    if (!quiet) printf("C ok %lu %016llx refusals=%ld accepts=%ld\n", reflen, (unsigned long long)fnv(FNV0, ref, reflen), sd.refusals, sd.accepts);
+  } else {
+    result = 0;
     size_t k = 0; while (k < reflen && k < sd.len && ref[k] == sd.sink[k]) k++;
-    printf("C bad %lu %016llx %lu %016llx %lu refusals=%ld accepts=%ld\n", reflen, (unsigned long long)fnv(FNV0, ref, reflen),
+    if (!quiet) printf("C bad %lu %016llx %lu %016llx %lu refusals=%ld accepts=%ld\n", reflen, (unsigned long long)fnv(FNV0, ref, reflen),
            (unsigned long)sd.len, (unsigned long long)fnv(FNV0, sd.sink, sd.len), (unsigned long)k, sd.refusals, sd.accepts);
   }
 out:
   free(img); free(tmp); free(ref); free(sd.buf); free(sd.sink);
+  return result;
 }
 
 /* ------------------------------------------ jpeg_mem_dest with application-supplied buffers */
@@ -929,6 +942,19 @@ int main(void)
         }
       }
       if (!bad) { printf("R %ld ok | ", count); digest_print("D", &r); printf("\n"); }
+    } else if (!strcmp(cmd, "encs")) {
+      /* suspending destination, EVERY buffer size 2..maxsz (then 1), `reps` refusal schedules each */
+      int w, h, nc, sub, q, rst, reps, r2, bad = 0; unsigned long long iseed, seed; long maxsz, sz, cnt = 0;
+      sscanf(line + off, "%d %d %d %d %d %d %llu %ld %d %llu", &w, &h, &nc, &sub, &q, &rst, &iseed, &maxsz, &reps, &seed);
+      for (sz = 2; sz <= maxsz + 1 && !bad; sz++) {
+        long bs = sz <= maxsz ? sz : 1;
+        for (r2 = 0; r2 < reps && !bad; r2++) {
+          unsigned long long sd = seed + (unsigned long long)bs * 1315423911ULL + (unsigned long long)r2;
+          int res = encode_case(w, h, nc, sub, q, rst, iseed, (size_t)bs, sd, 1); cnt++;
+          if (res != 1) { bad = 1; printf("CS %ld bad size=%ld seed=%llu res=%d\n", cnt, bs, sd, res); }
+        }
+      }
+      if (!bad) printf("CS %ld ok\n", cnt);
     } else if (!strcmp(cmd, "dst")) {
       int mode, w, h, nc, sub, q, rst; unsigned long long iseed; long maxsz, single;
       sscanf(line + off, "%d %d %d %d %d %d %d %llu %ld %ld", &mode, &w, &h, &nc, &sub, &q, &rst, &iseed, &maxsz, &single);
@@ -940,7 +966,7 @@ int main(void)
     } else if (!strcmp(cmd, "enc")) {
       int w, h, nc, sub, q, rst; unsigned long long iseed, seed; unsigned long bs;
       sscanf(line + off, "%d %d %d %d %d %d %llu %lu %llu", &w, &h, &nc, &sub, &q, &rst, &iseed, &bs, &seed);
-      encode_case(w, h, nc, sub, q, rst, iseed, bs, seed);
+      encode_case(w, h, nc, sub, q, rst, iseed, bs, seed, 0);
     } else printf("?\n");
   }
   { int i; for (i = 0; i < MAXS; i++) free(S[i]); }
